@@ -230,9 +230,20 @@ def _opened(path, via):
     return os.fdopen(os.open(path, os.O_RDONLY), "r", encoding="utf-8", newline="")
 
 
+def _spooled(text):
+    """A temporary file that lives in memory: a text stream whose name is None."""
+    import tempfile
+
+    result = tempfile.SpooledTemporaryFile(max_size=1 << 24, mode="w+", encoding="utf-8", newline="")
+    result.write(text)
+    result.seek(0)
+    return result
+
+
 def write_source(spec, rows, tmpdir, via="stream", name="data"):
     """Returns (source, base name for locations); source is a text stream or a path.  ``via``: 'stream' (StringIO),
-    'path', and for the text formats 'file-stream' / 'fd-stream' (an open file the caller has to close)."""
+    'path', and for the text formats 'file-stream' / 'fd-stream' / 'spooled-stream' (an open file the caller has to
+    close)."""
     import io
 
     fmt = spec["fmt"]
@@ -241,6 +252,8 @@ def write_source(spec, rows, tmpdir, via="stream", name="data"):
         text = delimited_text(rows, fmt=fmt)
         if via == "stream":
             return io.StringIO(text, newline=""), "<io>"
+        if via == "spooled-stream":
+            return _spooled(text), "<io>"
         path = os.path.join(tmpdir, name + ".csv")
         with open(path, "w", encoding="utf-8", newline="") as f:
             f.write(text)
@@ -251,6 +264,8 @@ def write_source(spec, rows, tmpdir, via="stream", name="data"):
         text = fixed_text(rows, fmt)
         if via == "stream":
             return io.StringIO(text, newline=""), "<io>"
+        if via == "spooled-stream":
+            return _spooled(text), "<io>"
         path = os.path.join(tmpdir, name + ".txt")
         with open(path, "w", encoding="utf-8", newline="") as f:
             f.write(text)
